@@ -22,22 +22,22 @@ def p1(n, timeout=900):
                             readers="SCPI_ParamDouble, SCPI_ParamFloat, SCPI_ParamNumber (symbolic choice)"))
 
 
-def p2(reader, n, timeout=900):
-    return Case("integer-%s-n%d" % (READERS[reader][10:], n), H, SRCS, defs=["-DPART=2", "-DN=%d" % n, "-DREADER=%d" % reader],
-                unwind=n + 3, unwindset=dict(US, **IRRELEVANT_INT), timeout=timeout, object_bits=11, functions=[READERS[reader], "SCPI_Parameter", "scpiLex_NondecimalNumericData",
+def p2(reader, n, timeout=900, hexonly=False):
+    return Case("integer-%s-n%d%s" % (READERS[reader][10:], n, "-hex" if hexonly else ""), H, SRCS, defs=["-DPART=2", "-DN=%d" % n, "-DREADER=%d" % reader] + (["-DHEXONLY=1"] if hexonly else []),
+                unwind=n + 3, unwindset=dict(US, **IRRELEVANT_INT), timeout=timeout, object_bits=11, optional_witness=(["negative-decimal"] if hexonly else []), functions=[READERS[reader], "SCPI_Parameter", "scpiLex_NondecimalNumericData",
                 "scpiLex_DecimalNumericProgramData", "ParamSignToUInt32", "ParamSignToUInt64", "strBaseToInt32", "strBaseToUInt32", "strBaseToInt64", "strBaseToUInt64"],
                 stubs=["strtol/strtoul/strtoll/strtoull (exact models)", "strtod/strtof (exact for plain integers)"],
                 bounds=dict(literal="every [sign]digits or #H/#Q/#B literal of 1..%d characters whose value fits the reader's type" % n,
                             reader=READERS[reader]))
 
 
-def p3(lo, hi, timeout=900):
-    return Case("units-%03d-%03d" % (lo, hi), H, SRCS, defs=["-DPART=3", "-DN=4", "-DUNIT_LO=%d" % lo, "-DUNIT_HI=%d" % hi, "-DSPECIALS=0"], unwind=14,
+def p3(cls, stride, timeout=900):
+    return Case("units-class%02d-of-%d" % (cls, stride), H, SRCS, defs=["-DPART=3", "-DN=4", "-DUNIT_CLASS=%d" % cls, "-DUNIT_STRIDE=%d" % stride, "-DSPECIALS=0"], unwind=14,
                 unwindset=dict(US, **{"harness.1": 130, "translateUnit.0": 130, "strlen.0": 12, "skipWs.0": 6, "skipNumbers.0": 6, "skipAlpha.0": 8, "strncasecmp.0": 8, "vm_strtod_core.0": 4, "vm_strtod_core.1": 4, "vm_strtod_core.2": 4, "skipWhitespace.0": 6}),
                 optional_witness=["special-short-form"],
                 timeout=timeout, object_bits=11, mem_est=4, functions=["SCPI_ParamNumber", "transformNumber", "translateUnit", "compareStr"],
                 stubs=["strtod (exact for the literal 25)", "strncasecmp (CBMC model)"],
-                bounds=dict(number="25", suffix="rows %d..%d of the real scpi_units_def (symbolic index; rows beyond the table's end are vacuous), every letter-case combination, 0..2 blanks" % (lo, hi - 1)))
+                bounds=dict(number="25", suffix="every row r of the real scpi_units_def with r mod %d == %d (symbolic index), every letter-case combination, 0..2 blanks" % (stride, cls)))
 
 
 def p3s(timeout=900):
@@ -54,8 +54,10 @@ def cases(tier):
     cs = [p1(6 if q else 10, 900 if q else 3000)]
     for r in range(6):
         cs.append(p2(r, 6 if q else 12, 900 if q else 3000))
-    for lo in range(0, 112, 8):
-        cs.append(p3(lo, lo + 8, 900 if q else 3000))
+    for cls in range(12):
+        cs.append(p3(cls, 12, 900 if q else 3000))
+    cs.append(p2(4, 12, 900 if q else 3000, hexonly=True))
+    cs.append(p2(3, 12, 900 if q else 3000, hexonly=True))
     cs.append(p3s(900 if q else 3000))
     return cs
 
